@@ -4,7 +4,7 @@ import os
 from harness.props import sysrun
 from harness.sched import monitors as M, library
 
-PROP_FILE = 'C06'
+PROP_FILE = ['C06', 'C06Legacy']
 
 
 def expect_paths(run):
@@ -38,7 +38,12 @@ def run(ctx):
                      rule='downloads to a path (single / ranged / pre-existing destination / empty object): faults in open, write, '
                           'close, rename and in every request, a cancel at every k-th scheduling point; the destination path is read at '
                           'EVERY scheduling point (each a potential crash point) and must be absent / previous content / the whole object; '
-                          'the directory is listed when result() returns and at the end; distinct = distinct event trace')
+                          'the directory is listed when result() returns and at the end; distinct = distinct event trace. Legacy '
+                          'S3Transfer.download_file: differential against the extracted Legacy model with a fault at every call position, '
+                          'destination sampled at every call')
+    if ctx.broken is None:
+        from harness.props import legacy
+        legacy.check_c06(ctx)
 
 
 def replay(ctx, data):
